@@ -38,12 +38,25 @@ def load_known():
             if m: known.append({'property': m.group(1), 'job': m.group(2), 'obligation': m.group(3), 'what': m.group(4)})
     return known, fixed
 
+MEMO = {}   # (spec, job, tier) -> result, shared by the properties of one `./check ALL` invocation (each job runs once per invocation)
+
 def main():
     args = sys.argv[1:]
     if not args: print(__doc__); return 2
-    prop = args[0]; tier = os.environ.get('VERIF_TIER', 'quick')
+    tier = os.environ.get('VERIF_TIER', 'quick')
     if '--tier' in args: tier = args[args.index('--tier') + 1]
     seed = int(os.environ.get('VERIF_SEED', '0') or 0)
+    if args[0] == 'ALL':
+        # every claimed property in one invocation; a job tagged with several properties is run once and reported under each
+        props = [c['property_id'] for c in json.load(open(os.path.join(VERIF, 'MANIFEST.json')))['checks']]
+        heavy_first = sorted(props, key=lambda p: 0 if p in ('C08', 'C02', 'C12', 'C09', 'C18') else 1)
+        rcs = []
+        for p in heavy_first:
+            rc = check_prop(p, tier, seed); print(f'[{p} rc={rc}]', flush=True); rcs.append(rc)
+        return 1 if 1 in rcs else (2 if any(rcs) else 0)
+    return check_prop(args[0], tier, seed)
+
+def check_prop(prop, tier, seed):
     t0 = time.time()
     evid_path = os.path.join(os.environ.get('VERIF_EVIDENCE_DIR') or os.path.join(VERIF, 'evidence'), prop + '.json')   # (the override is used only by the seeded-change self-tests)
     os.makedirs(os.path.dirname(evid_path), exist_ok=True)
@@ -124,8 +137,13 @@ def is_proof_script_obligation(f):
 
 def run_one(t, outdir, tier):
     cpath, job, spec, sp = t
+    key = (os.path.basename(sp), job['name'], tier)
+    if key in MEMO:
+        r = dict(MEMO[key]); r['props'] = job.get('props', '').split(','); return r
     try:
-        return yrun.run_job(cpath, job, outdir, tier)
+        r = yrun.run_job(cpath, job, outdir, tier)
+        if r.get('status') in ('ok', 'failed'): MEMO[key] = r
+        return r
     except Exception as e:
         return {'job': job['name'], 'status': 'error', 'detail': repr(e), 'obligations': [], 'seconds': 0, 'cmds': [], 'props': []}
 
